@@ -151,6 +151,7 @@ class Interp:
         self.model_u = {}                  # (draw call number, flat index) -> float: stand-ins for uniform variates, by position
         self.model_uatoms = {}             # variate Atom -> (draw call number, flat index)
         self.model_unjudged = []           # decisions on variates that could not be turned into interval bounds
+        self.default_objects = {}          # id -> (function, parameter, object): mutable default-argument values handed to a call
         from . import npmodel
         self.np = npmodel.NumpyModel(self)
 
@@ -454,12 +455,24 @@ class Interp:
             env.vars[a.kwarg.arg] = extra
         defaults = a.defaults
         denv = Env(fv.module, parent=fv.closure)
+
+        def default_value(pname, dnode):
+            # Python evaluates a default once, when the function is defined: a MUTABLE default (array, list, dict, set, record) is one object
+            # shared by every call that omits the argument.  It is evaluated on first use and kept with the function object.
+            cache = fv.attrs.setdefault("__defaults__", {})
+            if pname in cache:
+                return cache[pname]
+            v = self.ev(dnode, denv)
+            if isinstance(v, (np.ndarray, list, dict, set, Record)):
+                cache[pname] = v
+                self.default_objects[id(v)] = (fv.qualname, pname, v)
+            return v
         for p, d in zip(params[len(params) - len(defaults):], defaults):
             if p not in env.vars:
-                env.vars[p] = self.ev(d, denv)
+                env.vars[p] = default_value(p, d)
         for p, d in zip(a.kwonlyargs, a.kw_defaults):
             if p.arg not in env.vars and d is not None:
-                env.vars[p.arg] = self.ev(d, denv)
+                env.vars[p.arg] = default_value(p.arg, d)
         for p in params + kwonly:
             if p not in env.vars:
                 raise RaiseSig(ExcVal("TypeError", args=(f"missing argument {p} for {fv.qualname}",), node=node))
